@@ -17,6 +17,8 @@ structure Con where
   id : Nat
   vars : List Var
   sem : Asg → Bool
+  /-- identity of the Z3 AST `backends.z3.convert(c)` (different claripy ASTs may convert to the same Z3 AST) -/
+  zid : Nat := id
   /-- `c is false()` -/
   isFalse : Bool := false
   /-- `self._concrete_constraint(c)` (EagerResolutionMixin: `backends.concrete.eval(c, 1)[0]`, `None` on BackendError) -/
